@@ -209,7 +209,7 @@ fn snapshot_lines(snap: &std::collections::BTreeMap<Vec<u8>, tree::SnapEntry>, l
 /// kernel hands out during the operation is number 0 (a process started with stdin closed).
 pub static FD0_FREE: std::sync::atomic::AtomicBool = std::sync::atomic::AtomicBool::new(false);
 
-fn fd0_occupy() {
+pub fn fd0_occupy() {
     if unsafe { libc::fcntl(0, libc::F_GETFD) } < 0 {
         let fd = unsafe { libc::open(b"/dev/null\0".as_ptr() as *const _, libc::O_RDONLY | libc::O_CLOEXEC) };
         if fd > 0 {
@@ -610,6 +610,7 @@ fn main() {
             attack::suite_attack_mut(&mut ctx, seed, n, per)
         }
         "reopen-unshared" => attack::suite_reopen_unshared(&mut ctx),
+        "lookup-unshared" => attack::suite_lookup_unshared(&mut ctx),
         "reopen-fault" => procsuite::suite_reopen_fault(&mut ctx, seed),
         "race" => {
             let op = arg_val(&args, "--op").unwrap_or_else(|| "mkdir_all".into());
